@@ -8,6 +8,9 @@ fn main() {
         std::process::exit(3);
     }
     let id = args[1].as_str();
+    if id == "serve" {
+        std::process::exit(vh::c06::serve(&args[2]));
+    }
     let tier = match args[2].as_str() {
         "quick" => Tier::Quick,
         "thorough" => Tier::Thorough,
@@ -18,20 +21,37 @@ fn main() {
     };
     let seed: u64 = std::env::var("VERIF_SEED").ok().and_then(|s| s.parse().ok()).unwrap_or(1);
     let replay = args.iter().position(|a| a == "--replay").and_then(|i| args.get(i + 1)).cloned();
-    let code = match id {
-        "C01" | "C04" => {
-            let mut ctx = Ctx::new(id, tier, seed, "exploration");
-            if let Some(p) = &replay {
-                ctx.replay_mode = true;
-                vh::c01::replay(&ctx, id, &load_witness(p));
-                ctx.finish(0)
-            } else {
-                vh::c01::main(&ctx, id)
+    let level = match id {
+        "C06" => "fault_enumeration",
+        _ => "exploration",
+    };
+    let mut ctx = Ctx::new(id, tier, seed, level);
+    let code = if let Some(p) = &replay {
+        ctx.replay_mode = true;
+        let w = load_witness(p);
+        match id {
+            "C01" | "C04" => vh::c01::replay(&ctx, id, &w),
+            "C02" => vh::c02::replay(&ctx, &w),
+            "C03" => vh::c03::replay(&ctx, &w),
+            "C05" => vh::c05::replay(&ctx, &w),
+            "C06" => vh::c06::replay(&ctx, &w),
+            _ => {
+                eprintln!("no replay for {}", id);
+                std::process::exit(3);
             }
         }
-        _ => {
-            eprintln!("unknown property {}", id);
-            3
+        ctx.finish(0)
+    } else {
+        match id {
+            "C01" | "C04" => vh::c01::main(&ctx, id),
+            "C02" => vh::c02::main(&ctx),
+            "C03" => vh::c03::main(&ctx),
+            "C05" => vh::c05::main(&ctx),
+            "C06" => vh::c06::main(&ctx),
+            _ => {
+                eprintln!("unknown property {}", id);
+                3
+            }
         }
     };
     std::process::exit(code);
